@@ -187,6 +187,30 @@ pub fn run(ctx: &mut Ctx) {
     });
     ctx.require(&r, &["ok_within_band"]);
 
+    // 4''. many large day counts x the doubles nearest to (s + 1/2) seconds past the whole day (and their +/-2
+    // neighbours): at this magnitude consecutive doubles are ~40 µs apart, so the ties are approached as
+    // closely as the operand type allows
+    let secs: [f64; 5] = [0.0, 1.0, 59.0, 3599.0, 43_200.0];
+    let nk: u64 = if ctx.thorough() { 20_000 } else { 2_000 };
+    let base0 = tb[1];
+    let r = ctx.sweep_each("oracle_add_days_large_offsets_nearest_doubles_to_ties", "whole-day counts 104,251 + 1,733 i x the doubles nearest to (s + 0.5) seconds for s in {0,1,59,3599,43200} and their +/-2 neighbours", nk * 5 * 5, 256, |idx, acc| {
+        let j = (idx % 5) as i64 - 2;
+        let s = secs[((idx / 5) % 5) as usize];
+        let kd = 104_251.0 + 1_733.0 * (idx / 25) as f64;
+        let f0 = kd + (s + 0.5) / 86_400.0;
+        let f = f64::from_bits((f0.to_bits() as i64 + j) as u64);
+        acc.states += 1;
+        acc.t(1);
+        acc.traces += 1;
+        let got = step_impl(Val::Od(base0), Op::OAddDays, Arg::F64(f));
+        let g: Result<i64, sqldatetime::Error> = match &got { Out::V(Val::Od(v)) => Ok(*v), Out::Err(_) => Err(sqldatetime::Error::DateOutOfRange), _ => { acc.fail("C16:add_days:panic-or-wrong-kind", idx, || (format!("OracleDate({base0}).add_days({f:?})"), "value or error".into(), format!("{got:?}"), String::new())); return; } };
+        match judge_od_add_days(base0, f, &g) {
+            Ok(c) => { acc.cls(c); acc.nontrivial += 1; }
+            Err(exp) => acc.fail("C16:OracleDate:add_days:not-nearest-second-of-timestamp-result", idx, || (format!("OracleDate({base0}).add_days({f:?} = bits {:#018x})", f.to_bits()), exp, format!("{got:?}"), String::new())),
+        }
+    });
+    ctx.require(&r, &["ok_within_band"]);
+
     // 5. difference in days: the correctly rounded quotient (exact for whole days)
     let firsts = [cal.min_day as i64 * US_DAY, 0, (cal.max_day as i64 + 1) * US_DAY - US_SEC];
     let np = ods.len() as u64;
